@@ -255,6 +255,12 @@ def _ctor_attr(ctx: Ctx, cls_q: str, wanted) -> str:
             t = n.targets[0] if isinstance(n, ast.Assign) else n.target
             if isinstance(t, ast.Attribute) and isinstance(t.value, ast.Name) and t.value.id == "self":
                 return t.attr
+    # the parameter wrapped in a conversion (`self.x = set(param)`): still the attribute that holds it (whether a copy is acceptable is a rule's business)
+    for n in init.own_nodes():
+        if isinstance(n, (ast.Assign, ast.AnnAssign)) and n.value is not None and any(isinstance(y, ast.Name) and y.id in params for y in ast.walk(n.value)):
+            t = n.targets[0] if isinstance(n, ast.Assign) else n.target
+            if isinstance(t, ast.Attribute) and isinstance(t.value, ast.Name) and t.value.id == "self":
+                return t.attr
     raise AnchorError(f"attribute of {cls_q} bound to the wanted constructor parameter not found")
 
 
